@@ -402,7 +402,10 @@ def inj_objarr_plus_obj(case, rng):
 
 def inj_two_objarr(case, rng):
     d = rng.choice(["in", "out"])
-    ps = [{"dir": d, "type": "interface", "arr": 2, "name": "oa"}, {"dir": d, "type": "interface", "arr": 3, "name": "ob"}]
+    ps = [{"dir": d, "type": "interface", "arr": rng.choice([1, 1, 2, 3, 15]), "name": "oa"},
+          {"dir": d, "type": "interface", "arr": rng.choice([1, 1, 2, 3]), "name": "ob"}]
+    if rng.random() < 0.4:
+        ps.insert(1, {"dir": rng.choice(["in", "out"]), "type": "uint32", "arr": None, "name": "between"})
     r = _objrule(case, rng, "two-objarr", ps)
     if not r:
         return None
